@@ -29,7 +29,7 @@ Cfg_wm == { Cfg(bs, 0, << <<E(1)>>, <<E(0), O("x", 0)>>, <<S, U(0)>> >>) : bs \i
 
 Next == \/ \E t \in Thr : Step(t, MOf)
         \/ Destroy(MOf)
-        \/ (now < MaxNow /\ Tick(1))
+        \/ (now < MaxNow /\ TimeMatters /\ Tick(1))
         \/ (Dead /\ UNCHANGED vars)
 Spec == Init /\ [][Next]_vars
 
